@@ -437,10 +437,25 @@ pub fn parse_choice_text(input: &str) -> Result<ParsedChoiceText, CompilerError>
         let start = &trimmed[..open];
         let choice_only = trimmed[open + 1..close].trim();
         let end = trimmed[close + 1..].trim_start();
+        let had_space_before_inline_divert = split_inline_divert(end)
+            .and_then(|(text, _)| text.chars().last())
+            .is_some_and(char::is_whitespace);
         let (end, inline_target) = split_inline_choice_divert(end)?;
         let (start_text, start_tags) = split_text_and_tags(start)?;
         let (choice_only_text, choice_only_tags) = split_text_and_tags(choice_only)?;
         let (end_text, end_tags) = split_text_and_tags(end)?;
+        // Text followed by an inline divert (`* A[?] b. -> target`) keeps the space before
+        // the arrow so that it joins the diverted content on the same line, as in the
+        // `A[] b. -> target` form above.
+        let end_text = if inline_target.is_some()
+            && had_space_before_inline_divert
+            && !end_text.is_empty()
+            && !end_text.ends_with(char::is_whitespace)
+        {
+            format!("{end_text} ")
+        } else {
+            end_text
+        };
         // Append closing punctuation from `end` to choice_only_text only when the
         // `end` segment is plain text that starts with closing punctuation (like `."` or `,'`).
         // Do NOT pull chars from an expression like `{foo}`.
